@@ -108,6 +108,27 @@ def center (N0 N1 d0 d1 : Nat) (cval : α) (f : Im α) : Im α :=
 /-- `wavelet_decenter`'s slice -/
 def decenter (d0 d1 : Nat) (w : Im α) : Im α := fun y x => w (y + d0) (x + d1)
 
+/-! ### the Python wrappers' buffer handling -/
+
+/-- which buffer the row kernels of a wrapper call write into: the caller's array or a fresh one -/
+inductive Target | input | fresh
+deriving DecidableEq, Repr
+
+/-- `_wavelet_array(f, inline, …)`: `f = _as_floating_point_array(f)` (a non-floating array is converted by
+    `astype(np.double)`: a new array; a floating one is passed through), then `if not inline: return f.copy()`,
+    else `return f` -/
+def wrapTarget (isFloat inline : Bool) : Target :=
+  let afterCast := if isFloat then Target.input else Target.fresh
+  if !inline then Target.fresh else afterCast
+
+/-- a wrapper call `T(f, inline=…)` (`haar`, `ihaar`, `daubechies`, `idaubechies`: the kernels and the final
+    scaling all work in place on the array `_wavelet_array` returned) seen from the caller:
+    (content of the caller's array afterwards, returned array) -/
+def wrapCall (T : Im α → Im α) (isFloat inline : Bool) (f : Im α) : Im α × Im α :=
+  match wrapTarget isFloat inline with
+  | .input => (T f, T f)
+  | .fresh => (f, T f)
+
 end Poly
 
 /-- `_wavelet_center_compute`: the first `c ≥ 1` (below `16+border`) for which every
@@ -159,6 +180,10 @@ def handle (a : Args) : String :=
     | some (ns, d) => s!"nshape={showNats ns} delta={showNats d}"
     | none => "nshape=none delta=none"
   | "coeffs" => s!"model={showFloats (coeffsOf (a.nat "code" 0) : List Float)}"
+  | "wrap" =>
+    match wrapTarget (a.nat "isfloat" 1 == 1) (a.nat "inline" 0 == 1) with
+    | .input => "target=input"
+    | .fresh => "target=fresh"
   | k => s!"error=unknown-kind-{k}"
 
 end Mahotas.C17
